@@ -57,6 +57,7 @@ type vfX02LRes struct {
 	Ret    string         `json:"ret"`
 	Reqs   []vfX02Wire    `json:"reqs"`
 	Calls  []vfX02ObsCall `json:"calls"`
+	First  int            `json:"first"`
 	Tracer string         `json:"tracer"`
 	Traced int            `json:"traced"`
 	Att    int            `json:"att"`
@@ -94,7 +95,7 @@ type vfX02LPath struct {
 }
 
 func vfX02NoLRes() vfX02LRes {
-	return vfX02LRes{Ret: "-", Reqs: []vfX02Wire{}, Calls: []vfX02ObsCall{}, Tracer: "none", Lat: true}
+	return vfX02LRes{Ret: "-", Reqs: []vfX02Wire{}, Calls: []vfX02ObsCall{}, First: -1, Tracer: "none", Lat: true}
 }
 
 const vfX02Delay = 250 * time.Microsecond // the node holds every answer back at least this long
@@ -108,6 +109,7 @@ type vfX02Collector struct {
 	traces map[string]int // tracer -> calls with the trace id of a QUERY / EXECUTE / BATCH response
 	env    string
 	nreq   int
+	asked  int
 	addr   string
 }
 
@@ -150,6 +152,10 @@ func (o *vfX02Observer) ObserveQuery(ctx context.Context, q ObservedQuery) {
 	if q.End.Sub(q.Start) < vfX02Delay {
 		oc.Err += "+too-short"
 	}
+	// "The metrics per this host" (one host): after this attempt the count is its index + 1
+	if q.Metrics == nil || q.Metrics.Attempts != q.Attempt+1 {
+		oc.Err += "+host-metrics"
+	}
 	c.mu.Lock()
 	c.calls = append(c.calls, oc)
 	c.mu.Unlock()
@@ -162,6 +168,12 @@ func (o *vfX02Observer) ObserveBatch(ctx context.Context, b ObservedBatch) {
 	}
 	oc := vfX02ObsCall{Who: o.who, Stmts: []string{}, Vals: [][]int{}, Err: vfX02ErrClass(b.Err), abs: b.Attempt,
 		Host: b.Host != nil && b.Host.ConnectAddress().String() == c.addr}
+	if b.End.Sub(b.Start) < vfX02Delay {
+		oc.Err += "+too-short"
+	}
+	if b.Metrics == nil || b.Metrics.Attempts != b.Attempt+1 {
+		oc.Err += "+host-metrics"
+	}
 	if len(b.Statements) <= 8 {
 		for i, s := range b.Statements {
 			id := vfX02StmtID(s)
@@ -193,11 +205,23 @@ func (t *vfX02Tracer) Trace(id []byte) {
 	c.mu.Unlock()
 }
 
-// vfX02Retry: attempt again on the same host while Attempts() <= 1.
-type vfX02Retry struct{}
+// vfX02Retry: attempt again on the same host while Attempts() <= 1.  Runaway guard: asked more than 8 times during one
+// execution it says no (the execution then shows more requests than any specification allows, instead of hanging).
+type vfX02Retry struct{ w *vfX02LWorker }
 
-func (vfX02Retry) Attempt(q RetryableQuery) bool { return q.Attempts() <= 1 }
-func (vfX02Retry) GetRetryType(error) RetryType  { return Retry }
+func (p vfX02Retry) Attempt(q RetryableQuery) bool {
+	if c := p.w.col(); c != nil {
+		c.mu.Lock()
+		c.asked++
+		n := c.asked
+		c.mu.Unlock()
+		if n > 8 {
+			return false
+		}
+	}
+	return q.Attempts() <= 1
+}
+func (vfX02Retry) GetRetryType(error) RetryType { return Retry }
 
 type vfX02CtxKey struct{}
 
@@ -421,7 +445,7 @@ func vfX02NewLWorker(id int) (*vfX02LWorker, error) {
 				cfg.DisableSkipMetadata = def.DisableSkipMetadata
 			} else {
 				cfg.Consistency, cfg.PageSize, cfg.SerialConsistency = One, 7, Serial
-				cfg.DefaultTimestamp, cfg.DefaultIdempotence, cfg.RetryPolicy = false, true, vfX02Retry{}
+				cfg.DefaultTimestamp, cfg.DefaultIdempotence, cfg.RetryPolicy = false, true, vfX02Retry{w}
 				cfg.DisableSkipMetadata = true
 				cfg.QueryObserver, cfg.BatchObserver = w.obsS, w.obsS
 			}
@@ -451,6 +475,7 @@ var vfX02LStmts = map[string]string{
 	"q0": "/*L:q0*/ LIST x02",
 	"p0": "SELECT v FROM x02 /*L:p0*/",
 	"p2": "SELECT v FROM x02 WHERE a = ? AND b = ? /*L:p2*/",
+	"b2": "SELECT v FROM x02 WHERE a = ? AND c = ? /*L:b2*/",
 	"s":  "INSERT INTO x02 (a, b) VALUES (0, 0) /*L:s*/",
 	"p":  "INSERT INTO x02 (a, b) VALUES (?, ?) /*L:p*/",
 	"b":  "INSERT INTO x02 (a, c) VALUES (?, ?) /*L:b*/",
@@ -493,7 +518,9 @@ func (x *vfX02LExec) collect(env string, run func() error, attempts func() int, 
 	res.Reqs = append(res.Reqs, col.reqs...)
 	for i, c := range col.calls {
 		c.Att = c.abs - col.calls[0].abs
-		_ = i
+		if i == 0 {
+			res.First = c.abs
+		}
 		res.Calls = append(res.Calls, c)
 	}
 	for who, n := range col.traces {
@@ -527,6 +554,8 @@ func (x *vfX02LExec) do(c vfX02LCall) (res vfX02LRes, note string) {
 		var q *Query
 		if c.A == "p2" {
 			q = x.s.Query(stmt, 1, 2)
+		} else if c.A == "b2" {
+			q = x.s.Bind(stmt, func(*QueryInfo) ([]interface{}, error) { return []interface{}{5, 6}, nil })
 		} else {
 			q = x.s.Query(stmt)
 		}
@@ -572,7 +601,7 @@ func (x *vfX02LExec) do(c vfX02LCall) (res vfX02LRes, note string) {
 		case "obs":
 			q.Observer(w.obsQ)
 		case "rt":
-			q.RetryPolicy(vfX02Retry{})
+			q.RetryPolicy(vfX02Retry{w})
 		case "bind":
 			q.Bind(7, 8)
 		default:
@@ -645,6 +674,10 @@ func (x *vfX02LExec) do(c vfX02LCall) (res vfX02LRes, note string) {
 			x.b.Observer(w.obsQ)
 		case "ctxdead":
 			x.b = x.b.WithContext(w.dead)
+		case "idem":
+			for i := range x.b.Entries {
+				x.b.Entries[i].Idempotent = true
+			}
 		default:
 			res.Ret = "unknown-call"
 		}
@@ -798,8 +831,8 @@ func TestVfX02LifeRandom(t *testing.T) {
 	n := vfEnvInt("VF_X02_RANDOM", 300)
 	rng := rand.New(rand.NewSource(vfSeed()*104729 + 5))
 	setters := []string{"cons", "psize", "serial", "tsoff", "tson", "tsval", "idemT", "idemF", "pstate", "payload", "trace", "noskip", "rkey", "obs", "rt", "bind"}
-	bsetters := []string{"cons", "serial", "tsoff", "tson", "tsval", "payload", "trace", "obs", "ctxdead"}
-	stmts := []string{"q0", "p0", "p2", "p2"}
+	bsetters := []string{"cons", "serial", "tsoff", "tson", "tsval", "payload", "trace", "obs", "ctxdead", "idem", "idem"}
+	stmts := []string{"q0", "p0", "p2", "p2", "b2"}
 	envs := []string{"ok", "ok", "ok", "ok", "ok", "ok", "err", "err1"}
 	paths := make([]*vfX02LPath, 0, n)
 	for i := 0; i < n; i++ {
